@@ -5,6 +5,7 @@ package dtls
 import (
 	"bytes"
 	"context"
+	"crypto/x509"
 	"errors"
 	"fmt"
 	"io"
@@ -982,6 +983,70 @@ func vfC16ParkedWriteDeadline(res *vfResult, iter int) {
 	p.Close()
 }
 
+// vfC16CloseFromCallback: "Close may be called at any time, from any goroutine": here from the application's own
+// certificate-verification callback, which the library runs in the middle of the handshake. Close has to return and
+// the pending HandshakeContext has to end. Real time with a watchdog: a deadlock would otherwise stop the bubble.
+func vfC16CloseFromCallback(res *vfResult, iter int) {
+	ver := []string{"12", "13"}[iter%2]
+	which := []string{"VerifyPeerCertificate", "VerifyConnection"}[(iter/2)%2]
+	res.Eval(1)
+	pki := vfGetPKI()
+	var cO, sO []Option
+	if ver == "13" {
+		cO, sO = vfV13(), vfV13()
+	} else {
+		cO, sO = vfV12(), vfV12()
+	}
+	var connRef atomic.Pointer[Conn]
+	closeRet := make(chan struct{}, 4)
+	inCallback := func() {
+		if c := connRef.Load(); c != nil {
+			_ = c.Close()
+		}
+		closeRet <- struct{}{}
+	}
+	cO = append(cO, WithInsecureSkipVerify(true))
+	if which == "VerifyPeerCertificate" {
+		cO = append(cO, WithVerifyPeerCertificate(func([][]byte, [][]*x509.Certificate) error { inCallback(); return nil }))
+	} else {
+		cO = append(cO, WithVerifyConnection(func(*State) error { inCallback(); return nil }))
+	}
+	sO = append(sO, WithCertificates(pki.Leaf("ecdsa", "server")))
+	n := vfNewNet()
+	p, err := vfNewPair(n, vfCO(cO...), append(vfSO(sO...), WithInsecureSkipVerifyHello(true)))
+	if err != nil {
+		return
+	}
+	connRef.Store(p.C.Conn)
+	hsRet := make(chan error, 1)
+	ctx, cancel := context.WithTimeout(context.Background(), 30*time.Second)
+	defer cancel()
+	go func() { _ = p.S.Conn.HandshakeContext(ctx) }()
+	go func() { hsRet <- p.C.Conn.HandshakeContext(ctx) }()
+	id := fmt.Sprintf("close-from-callback/v%s/%s", ver, which)
+	res.NonTrivial(id + fmt.Sprint(iter))
+	closed, returned := false, false
+	deadline := time.After(8 * time.Second)
+	for !(closed && returned) {
+		select {
+		case <-closeRet:
+			closed = true
+		case <-hsRet:
+			returned = true
+		case <-deadline:
+			res.Violate(fmt.Sprintf("C16:close-from-handshake-callback-deadlocks:%s", which),
+				fmt.Sprintf("%s: Close called from the application's %s callback: Close returned=%v, HandshakeContext returned=%v after 8 s (a 30 s context is still pending)", id, which, closed, returned),
+				map[string]any{"iter": iter, "close_from_callback": true})
+			cancel()
+			_ = p.S.Conn.Close()
+
+			return
+		}
+	}
+	res.Count("close_from_callback_returned", 1)
+	_ = p.S.Conn.Close()
+}
+
 // vfC16CloseRace: the peer closes; this side's read loop answers with close_notify, and that datagram is still
 // being written (socket slow for a moment) when the application calls Close here as well. One close_notify may
 // leave this endpoint. Real time, for the same reason as vfC16ParkedWrite.
@@ -1085,6 +1150,7 @@ func TestVF_C16(t *testing.T) {
 	vfParallel(vfPick(10, 100), func(_, i int) { vfC16ParkedWrite(res, i) })
 	vfParallel(vfPick(20, 200), func(_, i int) { vfC16CloseRace(res, i) })
 	vfParallel(vfPick(10, 100), func(_, i int) { vfC16ParkedWriteDeadline(res, i) })
+	vfParallel(vfPick(4, 16), func(_, i int) { vfC16CloseFromCallback(res, i) })
 	ns := vfPick(150, 3000)
 	vfParallel(ns, func(_, i int) { vfC16Stress(res, i) })
 	res.Sample(map[string]any{"placements": len(cases), "stress_iterations": ns, "x_read_results": res.SetSize("x_read_results")})
